@@ -135,6 +135,58 @@ def check_getinfo(keys, values, single, out):
     return ('ok', len(keys))
 
 
+def check_overlap(calls, out):
+    """calls: [(fn_name, keys, values)] all submitted before the first reply arrives; replies in order; each result maps its own keys"""
+    with World() as w:
+        ctl = Ctl(w)
+        recs = []
+        for fn, keys, values in calls:
+            try:
+                d = getattr(ctl.proto, fn)(*keys)
+            except Exception as e:
+                out.append(('no-result', 'overlapping-requests', '%s%r raised %r' % (fn, tuple(keys), e)))
+                return ('raised',)
+            recs.append(DRec(d))
+        for fn, keys, values in calls:
+            parts = []
+            for k, v in zip(keys, values):
+                parts.append(('line', '%s=%s' % (k, v)) if isinstance(v, str) else ('data', k + '=', list(v)))
+            parts.append(('line', 'OK'))
+            ctl.deliver(ctlcodec.encode_reply(250, parts))
+        for (fn, keys, values), rec in zip(calls, recs):
+            what = '%s%r answered %r (requests outstanding together: %r)' % (fn, tuple(keys), values, [(c[0], c[1]) for c in calls])
+            if len(rec.fires) != 1 or rec.fires[0][0] != 'ok':
+                out.append(('no-result', 'overlapping-requests', '%s -> %r' % (what, rec.summary()[:2])))
+                continue
+            got = rec.fires[0][1]
+            got_map = {keys[0]: got} if fn == 'get_info_single' else got
+            want = dict((k, v if isinstance(v, str) else None) for k, v in zip(keys, values))
+            if not isinstance(got_map, dict) or set(got_map) != set(want):
+                out.append(('key-set', 'overlapping-requests', '%s -> %r' % (what, got)))
+                continue
+            for k, v in zip(keys, values):
+                ok = (got_map[k] == v) if isinstance(v, str) else (got_map[k] in ml_accept(v))
+                if not ok:
+                    out.append(('value-mismatch', 'overlapping-requests', '%s: key %r -> %r' % (what, k, got_map[k])))
+        errs = w.errors()
+        if errs:
+            out.append(('logged-error', errs[0][1], '%r' % (errs[:1],)))
+    return ('ok', len(calls))
+
+
+def overlap_cases():
+    vs = ['x', 'b=1', 'k=v w', '', ('l1', 'zz=2', 'l3')]       # (no block line repeats a requested key: that is the known finding)
+    out = []
+    for f1, f2 in itertools.product(('get_info', 'get_info_single'), repeat=2):
+        for k1, k2 in (('a', 'b'), ('b', 'a'), ('a', 'ab'), ('a/b', 'a')):
+            for v1, v2 in itertools.product(vs, repeat=2):
+                out.append(((f1, (k1,), (v1,)), (f2, (k2,), (v2,))))
+    for v1, v2, v3 in itertools.product(vs[:3], repeat=3):
+        out.append((('get_info', ('a', 'b'), (v1, v2)), ('get_info', ('ab',), (v3,))))
+        out.append((('get_info', ('ab',), (v3,)), ('get_info', ('a', 'b'), (v1, v2)), ('get_info_single', ('b',), (v2,))))
+    return out
+
+
 def check_getconf(key, values, single, spelling, out):
     """values: None (unset) or list of strings"""
     name = spelling
@@ -190,6 +242,7 @@ def tasks(tier, seed):
         out.append(('mixed', ks))
     out.append(('conf',))
     out.append(('keynames',))
+    out.append(('overlap',))
     return out
 
 
@@ -322,6 +375,16 @@ def run_task(param, acc):
             rec(acc, ('mixed', ks, values), oc, viol, p,
                 cost=100 * len(ks) + sum(len(v) if isinstance(v, str) else 20 * len(v) + sum(map(len, v)) for v in values))
         acc.sample(dict(call='get_info', keys=list(ks), values=[list(v) if isinstance(v, tuple) else v for v in values]), limit=1)
+    elif param[0] == 'overlap':
+        # several requests outstanding at once (each parsed with its own key set)
+        for calls in overlap_cases():
+            viol = []
+            oc = check_overlap(calls, viol)
+            acc.execution(key=('overlap', calls), outcome='overlap/' + '/'.join(str(x) for x in oc), nontrivial=True, steps=len(calls) * 2)
+            acc.state(h64(('overlap', calls)))
+            for clause, feat, detail in viol:
+                acc.violation('%s/%s' % (clause, feat), detail, dict(kind='overlap', calls=[[c[0], list(c[1]), [list(v) if isinstance(v, tuple) else v for v in c[2]]] for c in calls]),
+                              cost=100 * len(calls) + sum(len(repr(c)) for c in calls))
     elif param[0] == 'keynames':
         for k in ODD_KEYS:
             for ks in ((k,), (k, 'a'), ('a', k), (k, ODD_KEYS[(ODD_KEYS.index(k) + 1) % len(ODD_KEYS)])):
@@ -347,6 +410,10 @@ def run_task(param, acc):
 
 
 def replay(p):
+    if p.get('kind') == 'overlap':
+        viol = []
+        check_overlap([(c[0], tuple(c[1]), tuple(tuple(v) if isinstance(v, list) else v for v in c[2])) for c in p['calls']], viol)
+        return dict(violations=[dict(signature='%s/%s' % (c, f), what=d) for c, f, d in viol], log=[repr(p)])
     viol = run_params(p)
     return dict(violations=[dict(signature='%s/%s' % (c, f), what=d) for c, f, d in viol], log=[repr(p)])
 
